@@ -305,4 +305,43 @@ theorem roundInt_eq_round (mode : Mode) (p : Nat) (neg : Bool) (N : Nat) (k : In
     rw [frac_exact_eq _ _ _ sb (Nat.mul_pos (by omega) (ten_pow_pos _)) hδ,
       frac_incr_eq mode neg _ _ _ _ sb hδ]
 
+/-! ### Scale invariance of `Spec.round` -/
+
+theorem decExp_scale {q : ℚ} (hq : 0 < q) (s : Nat) :
+    decExp (q * ((10 ^ s : Nat) : ℚ)) = decExp q + s := by
+  obtain ⟨b1, b2⟩ := decExp_bounds hq
+  have h10 : (0 : ℚ) < 10 := by norm_num
+  have hs : (0 : ℚ) < ((10 ^ s : Nat) : ℚ) := by positivity
+  have hcast : ((10 ^ s : Nat) : ℚ) = (10 : ℚ) ^ (s : Int) := by
+    rw [zpow_natCast]; push_cast; rfl
+  apply decExp_unique (mul_pos hq hs)
+  · have : decExp q + (s : Int) - 1 = (decExp q - 1) + (s : Int) := by ring
+    rw [this, zpow_add₀ h10.ne', hcast]
+    exact mul_le_mul_of_nonneg_right b1 (le_of_lt (by rw [← hcast]; exact hs))
+  · rw [zpow_add₀ h10.ne', hcast]
+    exact mul_lt_mul_of_pos_right b2 (by rw [← hcast]; exact hs)
+
+theorem round_underflow (mode : Mode) (p : Nat) (neg : Bool) (q : ℚ) (k : Int)
+    (h : decExp q + k < MinExp) :
+    Spec.round mode p neg q k = { form := .zero, neg := neg, acc := makeAcc neg } := by
+  simp [Spec.round, h]
+
+/-- `Spec.round` only depends on the magnitude `q × 10^k`, not on how it is split. -/
+theorem round_scale (mode : Mode) (p : Nat) (neg : Bool) (q : ℚ) (k : Int) (s : Nat) (hq : 0 < q) :
+    Spec.round mode p neg (q * ((10 ^ s : Nat) : ℚ)) (k - s) = Spec.round mode p neg q k := by
+  have hd := decExp_scale hq s
+  have he : decExp q + (s : Int) + (k - s) = decExp q + k := by ring
+  have h10 : (10 : ℚ) ≠ 0 := by norm_num
+  have ht : q * ((10 ^ s : Nat) : ℚ) * pow10Rat ((p : Int) - (decExp q + s))
+      = q * pow10Rat ((p : Int) - decExp q) := by
+    rw [pow10Rat_eq_zpow, pow10Rat_eq_zpow]
+    have : ((10 ^ s : Nat) : ℚ) = (10 : ℚ) ^ (s : Int) := by
+      rw [zpow_natCast]; push_cast; rfl
+    rw [this, mul_assoc, ← zpow_add₀ h10]
+    congr 2; ring
+  by_cases hmin : decExp q + k < MinExp
+  · rw [round_underflow _ _ _ _ _ hmin, round_underflow _ _ _ _ _ (by rw [hd, he]; exact hmin)]
+  · rw [round_eq_tail mode p neg q k hmin, round_eq_tail mode p neg _ (k - s) (by rw [hd, he]; exact hmin)]
+    simp only [hd, he, ht]
+
 end Decimal
